@@ -44,6 +44,8 @@ def run(tier, v):
     files = files + f2
     bad, _, st = E.judge(files, "TransferObs", "TransferObs_c10.cfg", v, details, "obs", keyfn=keyfn, timeout=3000)
     cov["traces_validated_against_impl"] = s["runs"] + s2["runs"]
+    # the stop arrives while a pipeline goroutine is held at each of its blocking operations (sub-message timing)
+    E.run_points(h, "stopC,stopCdel,stopV", "TransferObs_c10.cfg", v, cov, tier, keyfn=keyfn)
     cov["process_level_signal_runs"] = s2["runs"]
     cov["process_level_signalled"] = s2.get("signalled", 0)
     cov["tv_states"] = st
